@@ -33,7 +33,7 @@ def atoms(cond, positive=True):
             for v in c.values:
                 out += atoms(v, positive)
             return out
-        return []
+        return [(ctext(c), positive)]      # a disjunction: known only as a whole
     if isinstance(c, ast.Compare):
         out = []
         left = c.left
